@@ -165,6 +165,21 @@ def check_doc(c, sc, d, pools, res):
                 crosses = D - depth < depth_in  # the isolating node itself (or something above it) would be split
                 if ok and crosses:
                     res.violate("c18.can_split.crosses", case, ok, False, size=n)
+                if crosses and depth >= 2:
+                    # the same question with explicit after-types for every level (non-isolating ones)
+                    for tname in ("blockquote", "paragraph"):
+                        if tname not in c.schema.nodes:
+                            continue
+                        tal = [ops.NodeTypeWithAttrs(c.schema.nodes[tname], None)] * (depth - 1) + \
+                              [ops.NodeTypeWithAttrs(rp.parent.type, rp.parent.attrs)]
+                        try:
+                            ok2 = structure.can_split(node, p, depth, tal)
+                        except Exception:  # noqa: BLE001
+                            continue
+                        res.transitions += 1
+                        if ok2:
+                            res.violate("c18.can_split.crosses", {**case, "types_after": [tname] * (depth - 1) + ["(parent)"]},
+                                        ok2, False, size=n)
                 if ok:
                     tr = adapters.Transform(node)
                     try:
